@@ -58,8 +58,8 @@ CHECKS = {
     "C19": (True, "whole-module write-effect / ownership analysis over SSA with a field-based heap abstraction (EFF-G, EFF-R, EFF-X, DET) and a tag-discipline rule for the unsafe node pointers (EFF-U)",
             "No instruction outside package initialisers writes package-level state; every write reachable from Render/AppendBlock/RenderHTML/Format/Walk and the exported accessors targets call-owned memory (fresh allocations, scratch-typed per-call state, the documented output parameter); external callees are stateless per table; no goroutine, channel, select, unsafe beyond tag-guarded node pointers, or order-observable map iteration. Covers all interleavings at once because no shared writable location exists.",
             "Go memory/type safety; external callee table (DESIGN.md Appendix C); user callbacks are the caller's"),
-    "C20": (True, "interprocedural SSA latch dataflow with bool-correlated method summaries, write-guard and who-may-write rules on the format writer, result provenance, write-effect analysis",
-            "Structural parts of the first sentence: the error field is a latch, every call reaching the underlying writer is guarded by it and stores its error, only the writer's own methods touch the underlying writer, Format returns the latched error, formatting writes only call-local memory and has no nondeterminism source. The round-trip sentence is behavioural and not decided.",
+    "C20": (True, "interprocedural SSA latch dataflow with bool-correlated method summaries, write-guard and who-may-write rules on the format writer, result provenance, write-effect analysis; reader/writer table agreement between the parser's markup bytes and the formatter's escape decisions by finite-domain branch evaluation (FMT-ESC)",
+            "Structural parts of the first sentence: the error field is a latch, every call reaching the underlying writer is guarded by it and stores its error, only the writer's own methods touch the underlying writer, Format returns the latched error, formatting writes only call-local memory and has no nondeterminism source. Of the round-trip sentence one necessary condition is decided: every ASCII punctuation byte the parser's inline tokenizer or block-start recognisers compare input with can be written with a backslash in front of it by the formatter's text loop (reachability only, not the conditions). The round trip itself is behavioural and not decided.",
             "go/ssa dominators; EFF external-callee table"),
 }
 
